@@ -116,6 +116,13 @@ CONF = {
         "tiers": tiers(8, 800, 16, 12000),
         "require_classes": ["refresh:autort", "refresh:autoinj", "refresh:manual", "refresh:none", "render-fault", "cancelled", "notifier", "repeated", "concurrent-clients"],
     },
+    "C10": {
+        "rule": "cases = concurrent scenarios: 1-3 shared bars, 1-8 client goroutines x up to 16 operations in 1-2 phases (all mutators and getters, priorities, Write, late adds), render cycles from a 1 ms ticker / injected ticks / manual, completion, abort and bar exit anywhere, holds around the bar goroutine's exit; one third of the cases use non-negative increments only (quiescent sum); every case also runs in the -race shards; non-trivial = some bar was operated on by >=3 clients; distinct by FNV-64 of the scenario JSON",
+        "assumptions": GO_ASSUME + SCHED_ASSUME + ["linearizability is decided by porcupine v1.3.0 on the recorded invoke/return history per bar (histories capped at 400 operations, 8 s timeout -> inconclusive)", "operations that reach a bar after its terminal event may be applied or dropped (both legal)", "the Go race detector only reports races on executed accesses; a report counts when the access sites of both goroutines are library code"],
+        "crash_is_violation": True,
+        "tiers": tiers(8, 600, 16, 12000, q_race_shards=6, q_race_checks=150, t_race_shards=8, t_race_checks=3000, race_gomaxprocs=4),
+        "require_classes": ["refresh:autort", "refresh:autoinj", "refresh:manual", "refresh:none", "shared-bar>=3clients", "quiescent-sum", "getter-after-exit-with-later-render"],
+    },
     "C03": {
         "rule": "cases = sequential programs on auto-refreshing containers (render requests injected by the harness racing with the library's early refresh, or a real 1-3 ms ticker): 1-6 bars with on-complete/on-abort fillers and decorator wrapper stacks, removal on completion, aborts with and without drop, pop mode, queued successors, post-terminal updates, optional cancel/Shutdown; non-trivial = >=2 bars, >=1 completed bar in the last frame and >=1 aborted, removed, popped or replaced bar, and no render-cycle step after the last update (the last frame has to come from early refresh or the final render); distinct by FNV-64 of the scenario JSON",
         "assumptions": GO_ASSUME + SCHED_ASSUME + ["which bars remain is computed from the program by a reference end-state model (first terminal event wins; successor replaces; pop mode pops out; remove-on-complete / abort with drop removes); under cancel/Shutdown only shown rows are judged", "hangs are left to C01 (counted, not judged here)"],
